@@ -70,15 +70,15 @@ type KnownFinding struct {
 }
 
 func loadKnown(verif string) []KnownFinding {
-	b, err := os.ReadFile(filepath.Join(verif, "known_findings.jsonl"))
+	b, err := os.ReadFile(filepath.Join(verif, "known_findings.txt"))
 	if err != nil {
 		return nil
 	}
 	var out []KnownFinding
 	for _, line := range strings.Split(string(b), "\n") {
 		line = strings.TrimSpace(line)
-		if line == "" || strings.HasPrefix(line, "#") {
-			continue
+		if !strings.HasPrefix(line, "{") {
+			continue // comments and "fixed: property=<id> <commit> <what failed>" records suppress nothing
 		}
 		var k KnownFinding
 		if json.Unmarshal([]byte(line), &k) == nil {
